@@ -17,8 +17,12 @@ RULE = ('sampled (Hypothesis-decoded): random acyclic models without '
         'addresses; enumerated: all permutations of the cells of two fixed '
         'models (diamond + range, two-sheet) with one and two evaluators.  '
         'Oracle: (a) every value equals the value of that cell as the first '
-        'and only evaluation on a fresh copy of the model, and the reference '
-        'evaluator; (b) snapshot of constants, formula texts, defined names '
+        'and only evaluation on a fresh copy of the model - for a quarter of '
+        'the cases and all models with inputs of mixed kinds (7 / 7.0, 0 / '
+        'FALSE, "abc" / "ABC", 12 / "12" under &, ISNUMBER, COUNT, CONCAT, '
+        'LEN ...) in a freshly imported, independent copy of the whole '
+        'LIBRARY, so that state the library keeps between models is seen '
+        'as well - and the reference evaluator; (b) snapshot of constants, formula texts, defined names '
         'and the key sets of cells/formulae/ranges before = after; (c) '
         'memory: N identical sweeps under tracemalloc after a warm-up, '
         'growth per evaluate() call must stay below 64 bytes (the leak the '
@@ -124,8 +128,55 @@ def _twin(d):
     return m
 
 
+KIND_GROUPS = [[7, 7.0], [0, 0.0, -0.0, False], [1, 1.0, True],
+               ['abc', 'ABC', 'Abc'], [2.5, '2.5'], [12, '12', 12.0],
+               [u'\xe9', u'\xc9']]
+
+
+def _kinds(d):
+    """inputs that are EQUAL under Excel's '=' (or Python's ==) but of
+    different kinds - 7 / 7.0, 0 / FALSE / -0.0, 'abc' / 'ABC', 12 / '12' -
+    under consumers that can tell them apart.  Only order independence is
+    judged on these models (no reference values)."""
+    m = {'inputs': {}, 'formulas': {}, 'sheets': ['Sheet1'], 'noref': True}
+    g = d.choice(KIND_GROUPS)
+    for r in range(1, 5):
+        m['inputs']['Sheet1!A%d' % r] = d.choice(
+            g if d.pick(4) else d.choice(KIND_GROUPS))
+
+    def ref():
+        return ['ref', 'A%d' % d.int(1, 4)]
+    rng = ['range', 'A1:A4']
+    for i in range(1, d.int(3, 7)):
+        k = d.pick(10)
+        if k == 0:
+            t = ['op', '&', ref(), ['str', '']]
+        elif k == 1:
+            t = ['call', d.choice(['ISNUMBER', 'ISTEXT']), [ref()]]
+        elif k == 2:
+            t = ['op', d.choice(['=', '<', '>=', '<>']), ref(), ref()]
+        elif k == 3:
+            t = ['call', d.choice(['COUNT', 'COUNTA', 'SUM', 'MAX']), [rng]]
+        elif k == 4:
+            t = ['call', 'CONCAT', [rng]]
+        elif k == 5:
+            t = ['op', d.choice(['+', '*']), ref(), ['num', '1']]
+        elif k == 6:
+            t = ['op', '&', ref(), ref()]
+        elif k == 7 and i > 1:
+            t = ['op', '&', ['ref', 'B%d' % d.int(1, i - 1)], ['str', '|']]
+        elif k == 8:
+            t = ['call', 'IF', [ref(), ['str', 'y'], ref()]]
+        else:
+            t = ['call', 'LEN', [ref()]]
+        m['formulas']['Sheet1!B%d' % i] = t
+    m['order'] = list(m['formulas'])
+    return m
+
+
 def _build(d):
-    model = _twin(d) if d.pick(4) == 0 else GM.build_model(d)
+    k = d.pick(8)
+    model = _twin(d) if k < 2 else _kinds(d) if k < 4 else GM.build_model(d)
     cells = model['order'] + sorted(model['inputs'])[:3] + ['Sheet1!Z9']
     nev = d.int(1, 3)
     n = d.int(2, 3 * len(cells))
@@ -134,7 +185,10 @@ def _build(d):
         # a dependant first, then its precedents, then the dependant again
         c = model['order'][-1]
         sched = [[0, c]] + sched + [[d.pick(nev), c]]
-    return {'model': model, 'nev': nev, 'schedule': sched}
+    # iso: the comparison value of each cell is computed in an independent
+    # copy of the LIBRARY (not only of the model)
+    return {'model': model, 'nev': nev, 'schedule': sched,
+            'iso': bool('noref' in model or d.pick(4) == 0)}
 
 
 def strategy(tier):
@@ -188,16 +242,24 @@ def judge(case):
             obs = root_exc(err)
         if a not in first:
             try:
-                fm = lib.compile_dict(d)
-                first[a] = lib.evaluate(fm, a)
+                if case.get('iso'):
+                    with lib.fresh_library():
+                        fm = lib.compile_dict(d)
+                        first[a] = lib.evaluate(fm, a)
+                else:
+                    fm = lib.compile_dict(d)
+                    first[a] = lib.evaluate(fm, a)
             except Exception as err:  # noqa: BLE001
                 first[a] = exc_tag(err)
         if a in model['formulas']:
-            want = R.tag(GM.ref_values(model, None, [a])[a])
+            want = None if model.get('noref') else R.tag(
+                GM.ref_values(model, None, [a])[a])
             if want is not None and not close(first[a], want, rel=1e-12):
                 res.fail('fresh-model-disagrees-with-reference', want,
                          first[a], [a, d])
                 return res
+            if model.get('noref') and any(x == a for _, x in sched[:step]):
+                nontrivial = True
             if GM.depth(model, a, dp) >= 2 and a in seen_before and any(
                     x in model['formulas'] and seen_before[a] < s2
                     for x, s2 in seen_before.items()
@@ -220,7 +282,9 @@ def judge(case):
                  else what, {k: after[k] for k in what}
                  if len(str(after)) < 2000 else what)
     res.nontrivial = nontrivial
-    res.labels = ('fixed' if 'fixed' in case else 'random', 'nev:%d' % nev)
+    res.labels = ('fixed' if 'fixed' in case else 'kinds' if model.get(
+        'noref') else 'random', 'nev:%d' % nev) + (
+            ('isolated-library',) if case.get('iso') else ())
     return res
 
 
